@@ -298,6 +298,8 @@ func (s *Sim) runBias() bool {
 		return s.biasSnapshot()
 	case BiasRestartApplied0:
 		return s.biasApplied0()
+	case BiasBatchedConf:
+		return s.biasBatchedConf()
 	}
 	return false
 }
@@ -673,4 +675,83 @@ func (s *Sim) biasApplied0() bool {
 	}
 	s.reunite()
 	return s.viol == nil
+}
+
+// biasBatchedConf: one proposal message carries two membership changes (add a,
+// add b). Only one change may be pending at a time; if both got into the log,
+// the members that applied both ({l,a,b} of {l,f2,f3,a,b}) and the old
+// followers that applied neither ({f2,f3} of {l,f2,f3}) would each form a
+// majority of their own configuration and could elect leaders for one term.
+func (s *Sim) biasBatchedConf() bool {
+	l, v, ok := s.prep()
+	if !ok || len(v) != 3 {
+		s.biasNote = "abort@20"
+		return false
+	}
+	cs := &s.nodes[l].disk.cs
+	var fresh []uint64
+	for id := uint64(1); id <= MaxID && len(fresh) < 2; id++ {
+		if !inSet(cs.Voters, id) && !inSet(cs.Learners, id) && s.nodes[id] == nil {
+			fresh = append(fresh, id)
+		}
+	}
+	if len(fresh) < 2 {
+		s.biasNote = "abort@21"
+		return false
+	}
+	f := without(v, l)
+	f2, f3 := f[0], f[1]
+	var ents []pb.Entry
+	for i, id := range fresh {
+		var cc pb.ConfChangeI = pb.ConfChange{Type: pb.ConfChangeAddNode, NodeID: id}
+		if (s.step+i)%2 == 1 {
+			cc = pb.ConfChangeV2{Changes: []pb.ConfChangeSingle{{Type: pb.ConfChangeAddNode, NodeID: id}}}
+		}
+		e, ok := confEntry(cc)
+		if !ok {
+			s.biasNote = "abort@22"
+			return false
+		}
+		ents = append(ents, e)
+	}
+	lSet := setOf(l)
+	s.dropWhere(touching(setOf(f3)))
+	before := s.nodes[l].disk.applied
+	s.doProposeBatch(l, ents)
+	s.readyAll(lSet)
+	// f2 stores and acknowledges the entries but never learns the new commit index
+	s.deliverWhere(func(m *pb.Message) bool { return m.From == l && m.To == f2 && m.Type == pb.MsgApp })
+	s.readyAll(setOf(f2))
+	s.deliverWhere(between(setOf(f2), lSet))
+	s.readyAll(lSet)
+	if s.nodes[l].disk.applied == before {
+		s.reunite()
+		s.biasNote = "abort@23"
+		return false
+	}
+	s.dropWhere(touching(setOf(f2, f3)))
+	s.isolate(f2, f3)
+	nSet := s.allSet() &^ setOf(f2, f3)
+	s.settle(nSet, 80)
+	// both sides hold an election for the next term
+	won := false
+	for _, id := range fresh {
+		if s.alive(id) && inSet(s.nodes[id].disk.cs.Voters, id) {
+			won = s.elect(id, nSet, 2) || won
+			break
+		}
+	}
+	oSet := setOf(f2, f3)
+	wonOld := s.elect(f2, oSet, 2)
+	s.doPropose(f2)
+	s.settle(oSet, 40)
+	s.doHeal()
+	for id := uint64(1); id <= MaxID; id++ {
+		if s.isLeader(id) {
+			s.doTick(id)
+		}
+	}
+	s.settle(s.allSet(), 60)
+	s.reunite()
+	return wonOld || won
 }
